@@ -68,7 +68,7 @@ const maxTrav = 4
 // generator: at most this many pushes per random case (keeps a state line under 300 bytes)
 const maxElems = 10
 
-var hangTimeout = 5 * time.Second
+var hangTimeout = 3 * time.Second
 
 const (
 	stIdle = iota
@@ -869,7 +869,7 @@ func malformed(g *gen, n int) {
 func generate(o *kit.Out, r *kit.Rand, tier string) {
 	g := &gen{o: o, r: r}
 	boundary(o)
-	cases, nstress, sn := 6000, 4, 300
+	cases, nstress, sn := 5000, 4, 300
 	if tier == "thorough" {
 		cases, nstress, sn = 30000, 60, 3000
 	}
